@@ -10,7 +10,7 @@ import sys
 sys.path.insert(0, str(ROOT / "tools"))
 
 # properties whose check the lead has reviewed, run at several seeds on the unchanged tree and registered
-REGISTERED = ["C01", "C02", "C03", "C04", "C05", "C06", "C07", "C08", "C09", "C11", "C12", "C13", "C14", "C15", "C16", "C17", "C18", "C19", "C20"]
+REGISTERED = ["C01", "C02", "C03", "C04", "C05", "C06", "C07", "C08", "C09", "C10", "C11", "C12", "C13", "C14", "C15", "C16", "C17", "C18", "C19", "C20"]
 
 CHECKS = {}
 for f in sorted((ROOT / "tools" / "props").glob("c[0-9][0-9].py")):
